@@ -387,7 +387,12 @@ func runSingle(c Case, res *lib.Result) string {
 		}
 	}
 	// drain: release all holders, cancel all waiters; at quiescence everything must be empty
-	for round := 0; round < 50; round++ {
+	// (a waiter that was handed a slot needs the scheduler to run it before its Acquire returns: on a loaded machine that
+	// can take far longer than one polling interval, so the drain gives up only after 3 s without any progress - a first
+	// version stopped after one idle 200 us round and reported a waiter as stranded that held its slot already: a false
+	// alarm seen once, on a busy machine)
+	lastProgress := time.Now()
+	for round := 0; round < 200000; round++ {
 		progress := false
 		for id, cl := range callers {
 			if cl.state == "holding" {
@@ -412,7 +417,17 @@ func runSingle(c Case, res *lib.Result) string {
 				}
 			}
 		}
-		if !progress {
+		if progress {
+			lastProgress = time.Now()
+			continue
+		}
+		pending := false
+		for _, cl := range callers {
+			if cl.state == "waiting" || cl.state == "holding" {
+				pending = true
+			}
+		}
+		if !pending || time.Since(lastProgress) > 3*time.Second {
 			break
 		}
 	}
